@@ -31,9 +31,14 @@ fn build(s: &mut Src, prog: &Prog, gaps: &[usize]) -> Case {
     let mut comments = Vec::new();
     for (k, g) in gaps.iter().enumerate() {
         let g = (*g).min(r.toks.len());
-        let text = match k % 3 {
-            0 => format!(" c{}", k + 1),
-            1 => format!("c{} with words", k + 1),
+        // texts are distinct by their number; one in eight is far wider than a usual line, some
+        // carry characters that matter to lexers and position arithmetic
+        let text = match (k + s.below(8)) % 8 {
+            0 | 1 => format!(" c{}", k + 1),
+            2 | 3 => format!("c{} with words", k + 1),
+            4 => format!(" c{} {}", k + 1, "wide comment text ".repeat(7 + s.below(6))),
+            5 => format!(" c{} // nested ä€😀 \u{2028} '", k + 1),
+            6 => format!("/ c{} {{ }} ; proc", k + 1),
             _ => format!("  c{}\t", k + 1),
         };
         placed.push((g, text.clone()));
